@@ -628,10 +628,10 @@ Proof.
   destruct r3; injection H as <- <- <-; exact F1.
 Qed.
 
-Theorem failed_harmless_identity m step e c g r g' :
-  wf g -> harmless m c = true -> attempt m step e c g = (r, g') -> r <> ROk -> g' = g.
+Theorem failed_harmless0_identity m step e c g r g' :
+  wf g -> harmless0 m c = true -> attempt m step e c g = (r, g') -> r <> ROk -> g' = g.
 Proof.
-  intros W HM H NR. unfold harmless in HM.
+  intros W HM H NR. unfold harmless0 in HM.
   apply andb_true_iff in HM as [HM H3]. apply andb_true_iff in HM as [H1 H2].
   assert (RL : forall g r g', wf g -> no_log (c_effs c) = true -> listen_safe (c_addrs c) = true ->
             do_reload step e c g = (r, g') -> r <> ROk ->
@@ -679,6 +679,78 @@ Proof.
     pose proof (exec_effs_no_auth_same _ _ _ _ _ _ _ _ H2 E1) as [C1 L1].
     pose proof (exec_effs_hooks_same _ _ _ _ _ _ _ _ H1 E1) as K1.
     destruct X. apply gstate_eq; auto.
+Qed.
+
+(* an attempt does what it does on the part of the configuration it reaches *)
+Lemma exec_cut step e effs : forall pre g l l2,
+  cut_bad effs = (pre, true) ->
+  exists r g' la lb, exec_effs step e effs g l = (r, g', la) /\
+                     exec_effs step e (filter not_log pre ++ [EBad]) g l2 = (r, g', lb) /\ r <> ROk.
+Proof.
+  induction effs as [|x effs IH]; intros pre g l l2 CB; simpl in CB.
+  - discriminate.
+  - destruct x as [|n|f size ok|f u].
+    + injection CB as <-. simpl. exists RErr, g, l, l2. repeat split; discriminate.
+    + destruct (cut_bad effs) as [p b] eqn:C. injection CB as <- ->. simpl. apply IH. reflexivity.
+    + destruct (cut_bad effs) as [p b] eqn:C. injection CB as <- ->. simpl. apply IH. reflexivity.
+    + destruct (cut_bad effs) as [p b] eqn:C. injection CB as <- ->. simpl.
+      destruct (get_matcher e g f u) as [[r1 g1] o1].
+      destruct r1.
+      * destruct o1 as [pw|]; [apply IH; reflexivity|].
+        exists RErr, g1, l, l2. repeat split; discriminate.
+      * exists RErr, g1, l, l2. repeat split; discriminate.
+      * exists RHang, g1, l, l2. repeat split; discriminate.
+Qed.
+
+Lemma parse_ok_reached c : negb (parse_ok c) = true ->
+  parse_ok {| c_id := c_id c; c_parse := c_parse c; c_effs := []; c_addrs := [] |} = parse_ok c.
+Proof. reflexivity. Qed.
+
+Lemma start_with_reached step e c old g :
+  start_with step e c old g = start_with step e (reached c) old g.
+Proof.
+  unfold reached. destruct (negb (parse_ok c)) eqn:P.
+  - unfold start_with. rewrite P. unfold parse_ok in *. simpl. rewrite P. reflexivity.
+  - destruct (cut_bad (c_effs c)) as [pre bad] eqn:CB. destruct bad; [|reflexivity].
+    unfold start_with. rewrite P. simpl.
+    destruct (exec_cut step e (c_effs c) pre g l0 l0 CB) as (r & g' & la & lb & E1 & E2 & NR).
+    rewrite E1, E2. destruct r; [congruence|reflexivity|reflexivity].
+Qed.
+
+Lemma do_validate_reached step e c g :
+  do_validate step e c g = do_validate step e (reached c) g.
+Proof.
+  unfold reached. destruct (negb (parse_ok c)) eqn:P.
+  - unfold do_validate. rewrite P. unfold parse_ok in *. simpl. rewrite P. reflexivity.
+  - destruct (cut_bad (c_effs c)) as [pre bad] eqn:CB. destruct bad; [|reflexivity].
+    unfold do_validate. rewrite P. simpl.
+    destruct (exec_cut step e (c_effs c) pre g l0 l0 CB) as (r & g' & la & lb & E1 & E2 & NR).
+    rewrite E1, E2. reflexivity.
+Qed.
+
+Lemma do_reload_reached step e c g :
+  do_reload step e c g = do_reload step e (reached c) g.
+Proof.
+  unfold do_reload. destruct (g_insts g) as [|old rest]; [reflexivity|].
+  rewrite start_with_reached. reflexivity.
+Qed.
+
+Lemma attempt_reached m step e c g :
+  attempt m step e c g = attempt m step e (reached c) g.
+Proof.
+  destruct m; simpl.
+  - unfold do_load. rewrite start_with_reached. reflexivity.
+  - apply do_validate_reached.
+  - apply do_reload_reached.
+  - unfold do_sigusr1. destruct (g_insts g); [reflexivity|]. rewrite do_reload_reached. reflexivity.
+  - apply do_validate_reached.
+Qed.
+
+Theorem failed_harmless_identity m step e c g r g' :
+  wf g -> harmless m c = true -> attempt m step e c g = (r, g') -> r <> ROk -> g' = g.
+Proof.
+  intros W HM H NR. rewrite attempt_reached in H.
+  eapply failed_harmless0_identity; eauto.
 Qed.
 
 (* ------------------------------------------------------------------ histories *)
